@@ -91,6 +91,19 @@ CLAIMED["C07"] = sync_entry("Wing-Gong linearizability search of every recorded 
                             "emptiness equal the model; blocking pops return in bounded virtual time",
                             "DESIGN.md section 5 (C07)")
 
+CLAIMED["C20"] = ("coverage-guided fuzzing (libFuzzer + ASan/UBSan) of three in-process targets with in-target "
+                  "oracles (reference map, 128-bit reference parser, independent recursive-descent grammar) "
+                  "plus Hypothesis-generated environment strings checked by metamorphic relations",
+                  "exploration",
+                  "libFuzzer explores the parsers and config maps with structured byte decoding; every execution "
+                  "is compared with a reference, sanitizers make overflow and out-of-bounds visible; environment "
+                  "variables are checked through monotonicity, saturation, default-on-junk and rounding relations "
+                  "on the values ABTD_env_init computes, plus a smoke workload for sane configurations.",
+                  "DESIGN.md section 5 (C20)",
+                  "Trusted base: the reference parsers in fuzz/fz.c and gen/c20.py, clang sanitizers. libFuzzer "
+                  "campaigns are reproducible only through their saved artefacts. The affinity parser is driven "
+                  "directly because the pinned build is configured without --enable-affinity.")
+
 NOT_BUILT = "check not built yet in this session (see DESIGN.md section 10 for the build order)"
 
 
@@ -107,7 +120,7 @@ def main():
                 "thorough_cmd": "./check %s --tier thorough" % pid,
                 "evidence_file": "evidence/%s.json" % pid,
                 "replay_cmd_template": "./check %s --replay {path}" % pid,
-                "engine": "abtx+dsched+hypothesis",
+                "engine": "libfuzzer+hypothesis" if pid == "C20" else "abtx+dsched+hypothesis",
                 "level_claimed": {"category": cat, "text": text, "design_ref": ref},
                 "level_note": note,
                 "technique": tech,
@@ -128,8 +141,11 @@ def main():
             "add_only": True,
         },
         "engines": [
+            {"name": "libfuzzer+hypothesis", "path": "check", "serves_properties": ["C20"],
+             "kind_free_text": "libFuzzer targets fuzz/fz.c (clang -fsanitize=fuzzer,address,undefined) with "
+                               "in-target reference oracles; gen/c20.py drives them and the environment part"},
             {"name": "abtx+dsched+hypothesis", "path": "check",
-             "serves_properties": sorted(CLAIMED),
+             "serves_properties": sorted(k for k in CLAIMED if k != "C20"),
              "kind_free_text": "Hypothesis generators (gen/*.py) drive a C executor (exec/) that "
                                "interprets generated Argobots programs under a deterministic "
                                "user-space scheduler (inst/dsched.c) owning every interleaving "
